@@ -342,6 +342,7 @@ Fixpoint frag (e : expr) : bool :=
   | EBin _ a b => frag a && frag b
   | EBool _ es => match es with [] => false | _ => forallb frag es end
   | ECmp a rest => match rest with [] => false | _ => frag a && forallb (fun p => frag (snd p)) rest end
+  | ECall f args [] => mem_str f PURE_BUILTIN_FUNCTIONS && forallb frag args
   | _ => false
   end.
 
@@ -413,10 +414,55 @@ Proof.
   apply existsb_exists in E. destruct E as [x [Hx Hp]]. rewrite (H x Hx) in Hp. discriminate.
 Qed.
 
-Lemma frag_hse : forall wl e, frag e = true -> hse wl e = false.
+Lemma pure_in_builtin : forall f, mem_str f PURE_BUILTIN_FUNCTIONS = true -> mem_str f BUILTIN_FUNCTIONS = true.
 Proof.
-  intros wl. induction e as [v0 | x0 | o a IHa | o a b IHa IHb | isand es IHes | a rest IHa IHrest | c a b IHc IHa IHb | es IHes | es IHes | f args kws IHargs IHkws | r m args kws IHargs IHkws] using expr_ind';
+  intros f H. unfold mem_str in *. apply existsb_exists in H. destruct H as [x [Hx E]].
+  apply String.eqb_eq in E. subst x. destruct (pure_table_ok f Hx) as [_ Hb].
+  apply existsb_exists. exists f. split; [exact Hb | apply String.eqb_refl].
+Qed.
+
+Lemma flat_map_nil : forall {X Y} (g : X -> list Y) l, (forall x, In x l -> g x = []) -> flat_map g l = [].
+Proof.
+  intros X Y g l H. induction l as [| x t IH]; [reflexivity|]. cbn [flat_map].
+  rewrite (H x (or_introl eq_refl)). cbn [app]. apply IH. intros y Hy. apply H. right. exact Hy.
+Qed.
+
+Lemma literal_attrs : forall e, literal e = true -> attrs_of e = [].
+Proof.
+  induction e as [v0 | x0 | o a IHa | o a b IHa IHb | isand es IHes | a rest IHa IHrest | c a b IHc IHa IHb | es IHes | es IHes | f args kws IHargs IHkws | r m args kws IHargs IHkws] using expr_ind';
+    intros H; cbn [literal] in H; try discriminate.
+  - reflexivity.
+  - destruct o; try discriminate; destruct a; try discriminate; reflexivity.
+  - cbn [attrs_of]. apply flat_map_nil. intros x Hx. rewrite forallb_forall in H. rewrite Forall_forall in IHes. exact (IHes x Hx (H x Hx)).
+  - cbn [attrs_of]. apply flat_map_nil. intros x Hx. rewrite forallb_forall in H. rewrite Forall_forall in IHes. exact (IHes x Hx (H x Hx)).
+Qed.
+
+Lemma frag_attrs : forall e, frag e = true -> attrs_of e = [].
+Proof.
+  induction e as [v0 | x0 | o a IHa | o a b IHa IHb | isand es IHes | a rest IHa IHrest | c a b IHc IHa IHb | es IHes | es IHes | f args kws IHargs IHkws | r m args kws IHargs IHkws] using expr_ind';
     intros H; cbn [frag] in H; try discriminate.
+  - reflexivity.
+  - destruct o; try discriminate.
+    + cbn [attrs_of]. exact (IHa H).
+    + destruct a; try discriminate. reflexivity.
+    + destruct a; try discriminate. reflexivity.
+  - apply andb_true_iff in H. destruct H as [Ha Hb]. cbn [attrs_of]. rewrite (IHa Ha), (IHb Hb). reflexivity.
+  - destruct es as [| e0 es']; [discriminate|]. cbn [attrs_of]. apply flat_map_nil. intros x Hx.
+    rewrite forallb_forall in H. rewrite Forall_forall in IHes. exact (IHes x Hx (H x Hx)).
+  - destruct rest as [| p rest']; [discriminate|]. apply andb_true_iff in H. destruct H as [Ha Hr].
+    cbn [attrs_of]. rewrite (IHa Ha). cbn [app]. apply flat_map_nil. intros x Hx.
+    rewrite forallb_forall in Hr. rewrite Forall_forall in IHrest. exact (IHrest x Hx (Hr x Hx)).
+  - apply (literal_attrs (ETuple es)). exact H.
+  - apply (literal_attrs (EList es)). exact H.
+  - destruct kws; [| discriminate]. apply andb_true_iff in H. destruct H as [_ Ha].
+    cbn [attrs_of flat_map]. rewrite app_nil_r. apply flat_map_nil. intros x Hx.
+    rewrite forallb_forall in Ha. rewrite Forall_forall in IHargs. exact (IHargs x Hx (Ha x Hx)).
+Qed.
+
+Lemma frag_hse : forall e, frag e = true -> hse BUILTIN_FUNCTIONS e = false.
+Proof.
+  induction e as [v0 | x0 | o a IHa | o a b IHa IHb | isand es IHes | a rest IHa IHrest | c a b IHc IHa IHb | es IHes | es IHes | f args kws IHargs IHkws | r m args kws IHargs IHkws] using expr_ind';
+    intros H; pose proof H as Hfrag; cbn [frag] in H; try discriminate.
   - reflexivity.
   - destruct o; try discriminate.
     + cbn [hse]. exact (IHa H).
@@ -428,8 +474,26 @@ Proof.
   - destruct rest as [| p rest']; [discriminate|]. apply andb_true_iff in H. destruct H as [Ha Hr].
     cbn [hse]. rewrite (IHa Ha). cbn [orb]. apply existsb_false. intros x Hx.
     rewrite forallb_forall in Hr. rewrite Forall_forall in IHrest. exact (IHrest x Hx (Hr x Hx)).
-  - apply (literal_hse wl (ETuple es)). exact H.
-  - apply (literal_hse wl (EList es)). exact H.
+  - apply (literal_hse BUILTIN_FUNCTIONS (ETuple es)). exact H.
+  - apply (literal_hse BUILTIN_FUNCTIONS (EList es)). exact H.
+  - destruct kws; [| discriminate]. apply andb_true_iff in H. destruct H as [Hf Ha].
+    cbn [hse]. rewrite (pure_in_builtin f Hf). cbn [orb negb existsb].
+    rewrite (frag_attrs _ Hfrag). cbn [forallb negb]. rewrite !orb_false_r.
+    apply existsb_false. intros x Hx.
+    rewrite forallb_forall in Ha. rewrite Forall_forall in IHargs. exact (IHargs x Hx (Ha x Hx)).
+Qed.
+
+Lemma bind_assoc : forall {A B C} (r : res A) (f : A -> res B) (g : B -> res C),
+  bind (bind r f) g = bind r (fun a => bind (f a) g).
+Proof. intros A B C [a | k |] f g; reflexivity. Qed.
+
+Lemma eval_list_cong : forall f g l, Forall (fun x => sim (f x) (g x)) l ->
+  forall F : list val -> res val, sim (bind (eval_list f l) F) (bind (eval_list g l) F).
+Proof.
+  intros f g l H. induction H as [| x tl Hx _ IH]; intros F; [reflexivity|].
+  cbn [eval_list]. rewrite !bind_assoc.
+  eapply sim_trans; [apply bind_cong1; exact Hx|].
+  apply bind_cong2. intros v. rewrite !bind_assoc. cbn [bind]. apply (IH (fun r => F (v :: r))).
 Qed.
 
 Lemma boolop_go_cong : forall f g isand l,
@@ -484,7 +548,7 @@ Qed.
 Theorem frag_exact : forall env e, frag e = true -> lv e = wrap (eval env e).
 Proof.
   intros env. induction e as [v0 | x0 | o a IHa | o a b IHa IHb | isand es IHes | a rest IHa IHrest | c a b IHc IHa IHb | es IHes | es IHes | f args kws IHargs IHkws | r m args kws IHargs IHkws] using expr_ind';
-    intros H; rewrite lv_unfold; rewrite (frag_hse _ _ H); cbn [frag] in H; try discriminate.
+    intros H; rewrite lv_unfold; rewrite (frag_hse _ H); cbn [frag] in H; try discriminate.
   - reflexivity.
   - (* EUn *) destruct o; try discriminate.
     + specialize (IHa H). cbn [eval]. change (sim (v <- sub (lv a) ;; Val (VBool (negb (truthy v)))) (v <- eval env a ;; unop_apply UNot v)).
@@ -516,6 +580,14 @@ Proof.
     + rewrite (sim_gap _ Hsa). destruct p as [o b]. cbn [cmp_all]. rewrite table_cmpop. reflexivity.
   - (* ETuple *) f_equal. apply (leval_exact env (ETuple es)). exact H.
   - (* EList *) f_equal. apply (leval_exact env (EList es)). exact H.
+  - (* ECall *) destruct kws; [| discriminate]. apply andb_true_iff in H. destruct H as [Hf Ha].
+    rewrite Hf. cbn [eval eval_kws].
+    change (sim (a <- eval_list (fun x => sub (lv x)) args ;; call_builtin f a)
+                (a <- eval_list (eval env) args ;; k <- Val [] ;; call_builtin_kw f a k)).
+    cbn [bind call_builtin_kw].
+    apply (eval_list_cong (fun x => sub (lv x)) (eval env)).
+    rewrite forallb_forall in Ha. rewrite Forall_forall in *. intros x Hx.
+    rewrite (IHargs x Hx (Ha x Hx)). apply sub_wrap.
 Qed.
 
 (* ---------- T15.3 no exception escapes from literal_value ---------- *)
